@@ -27,8 +27,8 @@ def build(tier, seed):
         mac = "c10_havoc_flooding" if sched == "flooding" else "c10_havoc_layered"
         for name, n, rows in fam:
             for lim in limits:
-                if tier == "quick" and lim >= 1 and "Aminstar" in ty and sched == "flooding":
-                    continue  # symbolic argmin => symbolic message destinations: > 8 GB with two decodes (thorough tier)
+                if lim >= 1 and "Aminstar" in ty and sched == "flooding":
+                    continue  # symbolic argmin => symbolic message destinations: > 8 GB with two decodes (item 2 covers these pairs with one full decode)
                 if tier == "thorough" and name != "chain2x3" and lim != 1:
                     continue  # the larger matrices at limit 1 only
                 hn = "c10_havoc_%s_%s_l%d" % (impl, name, lim)
@@ -71,7 +71,7 @@ def build(tier, seed):
             if kind == "i8" and (t["jones"] or t["deg1"]):
                 continue
         else:
-            seqs, degs = seqs_all, [(3, 2), (2, 3)]
+            seqs, degs = seqs_all, ([(3, 2), (2, 3)] if (kind == "float" and t["f"] == "f64") else [(3, 2)])
         for (oa, ob) in seqs:
             for (da, db) in degs:
                 hn = "c10_scratch_%s_%d%d_%dto%d" % (n, oa, ob, da, db)
